@@ -259,7 +259,7 @@ pub fn run(args: &Args) -> i32 {
     for (k, v) in bounds {
         ctx.bound(&format!("A_{k}"), v);
     }
-    eprintln!("  [C02] part A done at {:.1}s", ctx.elapsed());
+    crate::diag!("  [C02] part A done at {:.1}s", ctx.elapsed());
 
     // (B)
     let comps = composites(seed);
@@ -295,7 +295,7 @@ pub fn run(args: &Args) -> i32 {
         }
     });
     ctx.stats.merge(s);
-    eprintln!("  [C02] part B done at {:.1}s", ctx.elapsed());
+    crate::diag!("  [C02] part B done at {:.1}s", ctx.elapsed());
 
     // (C) one append round
     let mut bases: Vec<(String, Vec<u8>, bool)> = vec![("empty".into(), exec(&[Call::Finish], &[]).1, false)];
@@ -331,7 +331,7 @@ pub fn run(args: &Args) -> i32 {
         run_calls(&calls, Some(&b.1), &src, true, if uses_pw { Some(PW) } else { None }, st, (11 << 32) + i, "append", Some(&col));
     });
     ctx.stats.merge(s);
-    eprintln!("  [C02] part C done at {:.1}s", ctx.elapsed());
+    crate::diag!("  [C02] part C done at {:.1}s", ctx.elapsed());
 
     // (D) 16-bit length limits
     let mut dcases: Vec<(String, Vec<Call>, bool)> = vec![];
@@ -425,7 +425,7 @@ pub fn run(args: &Args) -> i32 {
         }
     });
     ctx.stats.merge(s);
-    eprintln!("  [C02] part D done at {:.1}s", ctx.elapsed());
+    crate::diag!("  [C02] part D done at {:.1}s", ctx.elapsed());
 
     // foreign judges
     let items = std::mem::take(&mut col.items.lock().unwrap().0);
@@ -494,7 +494,7 @@ pub fn run(args: &Args) -> i32 {
             }
         }
     }
-    eprintln!("  [C02] foreign judges done at {:.1}s", ctx.elapsed());
+    crate::diag!("  [C02] foreign judges done at {:.1}s", ctx.elapsed());
 
     ctx.stats.states = ctx.stats.distinct.len() as u64;
     ctx.stats.transitions = ctx.stats.evals;
